@@ -66,7 +66,7 @@ def main(claimed: list[str]) -> None:
         ],
         "checks": checks,
         "not_applicable": na,
-        "notes": "see DESIGN.md; known_findings.json lists fixed defects (~60 fix: commits in /repo) and the findings that are recorded rather than repaired",
+        "notes": "see DESIGN.md; known_findings.json lists fixed defects (58 fix: commits in /repo) and the findings that are recorded rather than repaired",
     }
     with open(os.path.join(ROOT, "MANIFEST.json"), "w") as fh:
         json.dump(m, fh, indent=1)
